@@ -421,3 +421,198 @@ def entry_forms(ctx, prog):
                 ok = const_value(ix) == 0 or strip(ix)[0] == "local"
             ctx.ob(RD, "%s = driver(str, &mut <fresh index>)" % f.short, ok, show(e)[:160], f.loc())
     ctx.floor(RD, n, 4, "from_str / from_bytes entry forms")
+
+
+def _state_names(prog):
+    adt = prog.adt("parser_state::BlockHashParseState")
+    return [v["name"].split("::")[-1] for v in adt["variants"]]
+
+
+def end_classification(ctx, prog):
+    """parse_block_hash_from_bytes: how the stop of one block hash is classified, and how many bytes it reports consumed"""
+    R = "SA-GUARD"
+    ctx.rule(R, "field terminator classification: end of input -> MetEndOfString with `consumed` bytes; ':' / ',' -> MetColon / MetComma with consumed+1 "
+             "(the terminator is eaten); any other byte -> Base64Error with `consumed` (strict parser: OverflowError instead when the bounded iterator ran dry); "
+             "capacity exceeded (default parser) -> OverflowError with `consumed`; `consumed` is the counter that counts every item taken from the input")
+    f = prog.fn("hash::algorithms::parse_block_hash_from_bytes")
+    ctx.visit(f)
+    sy = Sym(f)
+    strict = any(callee_of(t).endswith("Iterator::take") for i, t in f.calls())
+
+    def conds_at(b):
+        out = []
+        for c in path_conds(f, sy, b):
+            e = strip(c[0])
+            out.append((canon(e), c[1], sorted(c[2]), c))
+        return out
+
+    def variants_of(e):
+        e = strip(e)
+        if e[0] == "agg" and "BlockHashParseState::" in e[1]:
+            return [(e[1].split("::")[-1], None)]
+        if e[0] == "local":
+            out = []
+            for (blk, _i, kind, x) in f.defs.get(e[1], []):
+                v = strip(sy.rvalue(x)) if kind == "rv" else None
+                if v is not None and v[0] == "agg" and "BlockHashParseState::" in v[1]:
+                    out.append((v[1].split("::")[-1], blk))
+                else:
+                    return None
+            return out
+        return None
+    rows = []
+    for i, j, s in f.stmts():
+        if s["s"] == "assign" and s["rv"]["r"] == "agg" and s["rv"]["kind"].get("agg") == "Tuple" and len(s["rv"]["ops"]) == 2:
+            e = sy.rvalue(s["rv"])
+            vs = variants_of(e[2][0])
+            if not vs:
+                continue
+            for (vn, vblk) in vs:
+                cs = conds_at(i) + (conds_at(vblk) if vblk is not None else [])
+                rows.append((vn, canon(strip(e[2][1])), cs, s))
+    names = sorted(set(r[0] for r in rows))
+    ctx.ob(R, "parse_block_hash_from_bytes: all five stop states are produced", names == sorted(_state_names(prog)), "states produced: %s" % names, f.loc())
+    eos = [r for r in rows if r[0] == "MetEndOfString"]
+    if len(eos) != 1 or not re.match(r"^local:\w+_\d+$", eos[0][1]):
+        ctx.ob(R, "parse_block_hash_from_bytes: the consumed-bytes counter (second component at end of input)", False, "%s" % [r[1] for r in eos], f.loc())
+        return
+    CNT = eos[0][1]
+    cl = int(CNT.rsplit("_", 1)[1])
+    okc, wc = panic.counter_counts_every_item(f, sy, cl)
+    ctx.ob(R, "parse_block_hash_from_bytes: `consumed` counts every item taken from the input", okc, wc, f.loc())
+
+    def opt_is(cs, some):
+        # the last fetched Option is Some / None
+        for (txt, op, vals, c) in cs:
+            if txt.startswith("discr(") and ("::next(" in txt or re.match(r"^discr\(local:\w+\)$", txt)):
+                if (op == "in" and vals == [1 if some else 0]) or (op == "notin" and vals == [0 if some else 1]):
+                    return True
+        return False
+
+    def byte_in(cs, op, vals):
+        for (txt, o, v, c) in cs:
+            if txt.endswith("as Some).0") and o == op and v == vals:
+                return True
+        return False
+    want = {
+        "MetEndOfString": (CNT, lambda cs: opt_is(cs, False)),
+        "MetColon": ("Add(%s,1)" % CNT, lambda cs: opt_is(cs, True) and byte_in(cs, "in", [58])),
+        "MetComma": ("Add(%s,1)" % CNT, lambda cs: opt_is(cs, True) and byte_in(cs, "in", [44])),
+    }
+    for r in rows:
+        vn, consumed, cs, s = r
+        consumed = re.sub(r"^\((\w+)WithOverflow\((.*)\)\)\.0$", r"\1(\2)", consumed)
+        shown = [(t[:80], o, v) for (t, o, v, c) in cs][-4:]
+        if vn in want:
+            ok = consumed == want[vn][0] and want[vn][1](cs)
+            ctx.ob(R, "parse_block_hash_from_bytes: %s is reported exactly at its terminator with the documented consumed count" % vn, ok, "consumed %s; conditions %s" % (consumed, shown), f.loc(s["sp"]))
+        elif vn == "Base64Error":
+            ok = consumed == CNT and opt_is(cs, True) and byte_in(cs, "notin", [44, 58])
+            if strict:
+                ok = ok and any(a and a[0] == "truth" and a[1][0] == "local" and _ran_dry_flag(f, sy, a[1][1]) and a[2] is True for a in (bool_atom(c) for (_t, _o, _v, c) in cs))
+            ctx.ob(R, "parse_block_hash_from_bytes: Base64Error is reported at a byte that is neither ':' nor ','%s, not eaten" % (" and was really fetched (iterator not dry)" if strict else ""),
+                   ok, "consumed %s; conditions %s" % (consumed, shown), f.loc(s["sp"]))
+        elif vn == "OverflowError":
+            if strict:
+                ok = consumed == CNT and opt_is(cs, True) and byte_in(cs, "notin", [44, 58]) and \
+                    any(a and a[0] == "truth" and a[1][0] == "local" and _ran_dry_flag(f, sy, a[1][1]) and a[2] is False for a in (bool_atom(c) for (_t, _o, _v, c) in cs))
+                what = "the bounded iterator ran dry and the next byte is no terminator"
+            else:
+                ok = consumed == CNT and any(a and a[0] == "Ge" and canon(strip(a[2])) in ("N",) and strip(a[1])[0] == "local" for a in (bool_atom(c) for (_t, _o, _v, c) in cs))
+                what = "the stored length has reached the capacity N"
+            ctx.ob(R, "parse_block_hash_from_bytes: OverflowError is reported exactly when %s" % what, ok, "consumed %s; conditions %s" % (consumed, shown), f.loc(s["sp"]))
+
+
+def driver_outcomes(ctx, prog):
+    """the parse driver (template expansion): which stop state of which field leads to which outcome, with which position"""
+    R = "SA-GUARD"
+    ctx.rule(R, "driver outcome table: block hash 1 must stop at ':' (',' -> UnexpectedCharacter at offset-1, other byte -> UnexpectedCharacter at offset, end -> "
+             "UnexpectedEndOfString at offset, overflow -> BlockHashIsTooLong at offset); block hash 2 must stop at ',' (index = offset-1) or the end (index = offset) "
+             "(':' -> UnexpectedCharacter at offset-1, other byte -> UnexpectedCharacter at offset, overflow -> BlockHashIsTooLong at offset); offset = consumed by the "
+             "block-size field + consumed by each block-hash field")
+    names = _state_names(prog)
+    n = 0
+    for f in prog.fns:
+        if not f.path.endswith("::from_bytes_with_last_index_internal"):
+            continue
+        calls = [i for i, t in f.calls() if callee_of(t).endswith("parse_block_hash_from_bytes")]
+        if len(calls) != 2:
+            continue
+        n += 1
+        ctx.visit(f)
+        sy = Sym(f)
+        c1, c2 = calls
+        if not f.dominates(c1, c2):
+            c1, c2 = c2, c1
+        k1 = canon(strip(sy.call(f.blocks[c1]["term"], c1)))
+        k2 = canon(strip(sy.call(f.blocks[c2]["term"], c2)))
+
+        def states(b):
+            st = {1: None, 2: None}
+            for c in path_conds(f, sy, b):
+                e = strip(c[0])
+                if e[0] != "discr":
+                    continue
+                txt = canon(strip(e[1]))
+                for k, kc in ((1, k1), (2, k2)):
+                    if txt == "%s.0" % kc or txt == "(%s).0" % kc:
+                        vals = sorted(c[2])
+                        if c[1] == "in":
+                            st[k] = [names[v] for v in vals]
+                        else:
+                            st[k] = [nm for idx, nm in enumerate(names) if idx not in vals]
+            return st
+        # the running offset
+        offs = [l for l in range(f.argc + 1, len(f.locals)) if len(f.defs.get(l, [])) == 3]
+        OFF = None
+        for l in offs:
+            ds = sorted(re.sub(r"^\((\w+)WithOverflow\((.*)\)\)\.0$", r"\1(\2)", canon(strip(sy.rvalue(x) if k == "rv" else sy.call(x, b)))) for (b, _i, k, x) in f.defs[l])
+            me = "local:%s_%d" % (f.locals[l]["name"], l)
+            if ds == sorted(["(internals::hash::algorithms::parse_block_size_from_bytes(local:%s) as Ok).0.1" % ds_buf for ds_buf in re.findall(r"parse_block_size_from_bytes\(local:(\w+)\)", " ".join(ds))[:1]] +
+                            ["Add(%s,%s.1)" % (me, k1), "Add(%s,%s.1)" % (me, k2)]):
+                OFF = me
+        ctx.ob(R, "%s: offset = block-size field's consumed count, then += consumed count of each block-hash field" % f.short, OFF is not None,
+               "offset variable %s" % OFF, f.loc())
+        if OFF is None:
+            continue
+        want = {
+            (1, "MetComma"): ("UnexpectedCharacter", "BlockHash1", "Sub(%s,1)" % OFF),
+            (1, "Base64Error"): ("UnexpectedCharacter", "BlockHash1", OFF),
+            (1, "MetEndOfString"): ("UnexpectedEndOfString", "BlockHash1", OFF),
+            (1, "OverflowError"): ("BlockHashIsTooLong", "BlockHash1", OFF),
+            (2, "MetColon"): ("UnexpectedCharacter", "BlockHash2", "Sub(%s,1)" % OFF),
+            (2, "Base64Error"): ("UnexpectedCharacter", "BlockHash2", OFF),
+            (2, "OverflowError"): ("BlockHashIsTooLong", "BlockHash2", OFF),
+        }
+        got = {}
+        extra = []
+        for i, j, s in f.stmts():
+            if s["s"] == "assign" and s["rv"]["r"] == "agg" and s["rv"]["kind"].get("adt", "").endswith("parser_state::ParseError"):
+                e = sy.rvalue(s["rv"])
+                kind = e[2][0][1].split("::")[-1] if e[2][0][0] == "agg" else "?"
+                origin = e[2][1][1].split("::")[-1] if e[2][1][0] == "agg" else "?"
+                pos = re.sub(r"^\((\w+)WithOverflow\((.*)\)\)\.0$", r"\1(\2)", canon(strip(e[2][2])))
+                st = states(i)
+                key = None
+                if st[2] is not None and len(st[2]) == 1 and st[1] == ["MetColon"]:
+                    key = (2, st[2][0])
+                elif st[2] is None and st[1] is not None and len(st[1]) == 1:
+                    key = (1, st[1][0])
+                if key is None:
+                    extra.append("ParseError(%s,%s,%s) under states %s" % (kind, origin, pos, st))
+                else:
+                    got[key] = (kind, origin, pos)
+        bad = ["%s of field %d -> %s (want %s)" % (k[1], k[0], got.get(k), v) for k, v in want.items() if got.get(k) != v]
+        bad += ["unexpected outcome for %s of field %d: %s" % (k[1], k[0], v) for k, v in got.items() if k not in want]
+        ctx.ob(R, "%s: every stop state of either field leads to the documented error kind, origin and position" % f.short, not bad and not extra,
+               "; ".join(bad + extra)[:500] or "7 error rows", f.loc())
+        # Ok side: *index
+        idx_rows = {}
+        for i, j, s in f.stmts():
+            if s["s"] == "assign" and s["lhs"]["p"] == ["*"] and s["lhs"]["l"] == 2:
+                st = states(i)
+                v = re.sub(r"^\((\w+)WithOverflow\((.*)\)\)\.0$", r"\1(\2)", canon(strip(sy.rvalue(s["rv"]))))
+                idx_rows[tuple(st[2] or [])] = (v, st[1])
+        ok = idx_rows == {("MetComma",): ("Sub(%s,1)" % OFF, ["MetColon"]), ("MetEndOfString",): (OFF, ["MetColon"])}
+        ctx.ob(R, "%s: success exactly when field 1 stopped at ':' and field 2 at ',' (index = offset-1) or at the end (index = offset)" % f.short, ok, "%s" % idx_rows, f.loc())
+    ctx.floor(R, n, 1, "template expansions of the parse driver")
